@@ -33,10 +33,15 @@ structure Cfg where
   parentEmits : Bool
   /-- `automate_execution` of a workflow parent is put back in the `finally` (pinned: only on success) -/
   automateInFinally : Bool
+  /-- the `finally` block puts back the remembered connection *lists* (pinned: it re-connects the
+  remembered pairs, which prepends them and so reverses firing orders) -/
+  restoreLists : Bool
   deriving Repr, DecidableEq
 
-def Cfg.pinned : Cfg := { cutAllOutputs := false, parentEmits := true, automateInFinally := false }
-def Cfg.repaired : Cfg := { cutAllOutputs := true, parentEmits := false, automateInFinally := true }
+def Cfg.pinned : Cfg :=
+  { cutAllOutputs := false, parentEmits := true, automateInFinally := false, restoreLists := false }
+def Cfg.repaired : Cfg :=
+  { cutAllOutputs := true, parentEmits := false, automateInFinally := true, restoreLists := true }
 
 /-- a label is the user's label plus, during a pull, the suffix `str(id(node))`
 (string concatenation is taken to be injective on these pairs) -/
@@ -59,6 +64,8 @@ structure World where
   hasExec  : Nat → Bool                -- `node.executor is not None`
   fails    : Nat → Bool                -- the wrapped function raises
   truth    : Nat → Option Bool         -- `If` nodes: the branch signal fired after a successful run
+  running  : Nat → Bool                -- status flag `running` (a run in flight elsewhere, or a stale flag)
+  hit      : Nat → Bool                -- the node's cache answers (`use_cache` and unchanged input; C05's subject)
   -- dynamic part
   log      : List Nat                  -- executed leaf nodes, in order
   recv     : Nat → List (Label × Nat)  -- `received_signals` of accumulating inputs (scoped labels)
@@ -121,6 +128,8 @@ structure Env where
   label : Nat → Label
   fails : Nat → Bool
   truth : Nat → Option Bool
+  running : Nat → Bool
+  hit   : Nat → Bool
 
 def fireAll (e : Env) (c : Nat) : List Item := (e.g.conns c).map (Item.fire c)
 
@@ -136,11 +145,16 @@ def emitItems (e : Env) (i : Nat) (ok : Bool) : List Item :=
 
 /-- `node.run()` of a leaf node reached through a signal or as a starting node -/
 def startNode (e : Env) (m : Mode) (x : X) (i : Nat) : X :=
-  if x.failed i then
+  if x.failed i || e.running i then
     -- ReadinessError: the function is not called
     match m with
     | .dfs => { x with raised := true, stack := [] }
     | .bfs => { x with errs := x.errs + 1 }
+  else if e.hit i then
+    -- cache hit: the function is not called, the node emits as if it had just run
+    match m with
+    | .dfs => { x with stack := emitItems e i true ++ x.stack }
+    | .bfs => { x with stack := x.stack ++ emitItems e i true }
   else if e.fails i then
     match m with
     | .dfs => { x with log := x.log ++ [i], failed := updF x.failed i true,
@@ -207,7 +221,8 @@ def unlabel (saved lab : Nat → Label) (order : List Nat) : Nat → Label :=
 inductive Outcome | ok | cyclic | execRefused | mixedScope | failed | stuck | badObs
   deriving Repr, DecidableEq
 
-def World.env (w : World) : Env := { g := w.g, label := w.label, fails := w.fails, truth := w.truth }
+def World.env (w : World) : Env :=
+  { g := w.g, label := w.label, fails := w.fails, truth := w.truth, running := w.running, hit := w.hit }
 def World.x (w : World) : X :=
   { log := w.log, recv := w.recv, failed := w.failed, stack := [], errs := 0, raised := false }
 def World.absorb (w : World) (x : X) : World := { w with log := x.log, recv := x.recv, failed := x.failed }
@@ -221,7 +236,7 @@ def drive (cfg : Cfg) (w : World) (t starter : Nat) (fuel : Nat) : World × Outc
     let x := runFuel w.env .dfs fuel (startNode w.env .dfs w.x starter)
     (w.absorb x, if !x.stack.isEmpty then .stuck else if x.raised then .failed else .ok)
   | some p =>
-    if w.failed p then (w, .failed)                       -- ReadinessError of the parent
+    if w.failed p || w.running p then (w, .failed)        -- ReadinessError of the parent
     else
       let x := runFuel w.env .bfs fuel (startNode w.env .bfs w.x starter)
       if !x.stack.isEmpty then (w.absorb x, .stuck)
@@ -265,9 +280,20 @@ def runUpstream (cfg : Cfg) (w : World) (t starter fuel : Nat) : World × Outcom
       ({ r.1 with automate := updF r.1.automate p (w.automate p) }, r.2)
     else r
 
+/-- every signal channel of the closure and everything connected to one (before the surgery) -/
+def savedChans (g : G) (order : List Nat) : List Nat :=
+  let own := order.flatMap (fun i => [ch i 0, ch i 1, ch i 2, ch i 3, ch i 4, ch i 5])
+  own ++ own.flatMap g.conns
+
+/-- (repair) the remembered connection lists are assigned back -/
+def restoreLists (g0 g : G) (order : List Nat) : G :=
+  { g with conns := fun c => if c ∈ savedChans g0 order then g0.conns c else g.conns c }
+
 /-- the `finally` block: labels back, graph restored, the parent's starting nodes back -/
-def finish (w0 w3 : World) (t : Nat) (order : List Nat) (pairs : List (Nat × Nat)) : World :=
-  let w4 := { w3 with label := unlabel w0.label w3.label order, g := restoreG w3.g order pairs }
+def finish (cfg : Cfg) (w0 w3 : World) (t : Nat) (order : List Nat) (pairs : List (Nat × Nat)) : World :=
+  let w4 := { w3 with label := unlabel w0.label w3.label order,
+                      g := if cfg.restoreLists then restoreLists w0.g w3.g order
+                           else restoreG w3.g order pairs }
   match w0.parent t with
   | some p => { w4 with starting := updF w4.starting p (w0.starting p) }
   | none => w4
@@ -291,7 +317,7 @@ def upstream (cfg : Cfg) (w : World) (t : Nat) (order chain : List Nat) (fuel : 
       let prep := prepare cfg w.g t order chain
       let w2 := { w with g := prep.1, label := relabel w.label order }
       let r := if starter = t then (w2, Outcome.ok) else runUpstream cfg w2 t starter fuel
-      (finish w r.1 t order prep.2, r.2)
+      (finish cfg w r.1 t order prep.2, r.2)
 
 /-- `run_data_tree(run_parent_trees_too)`: the targets from the root-most ancestor down to the
 node itself, each level completed (including its `finally`) before the next begins -/
@@ -311,7 +337,8 @@ def ancestors (w : World) : Nat → Nat → List Nat
 
 /-- the node's own run at the end of `pull`: `emit_ran_signal=False`, nothing is emitted -/
 def runTarget (w : World) (t : Nat) : World × Outcome :=
-  if w.failed t then (w, .failed)
+  if w.failed t || w.running t then (w, .failed)
+  else if w.hit t then (w, .ok)
   else if w.fails t then ({ w with log := w.log ++ [t], failed := updF w.failed t true }, .failed)
   else ({ w with log := w.log ++ [t] }, .ok)
 
